@@ -25,6 +25,8 @@ type TupleC14 struct {
 	Name string `json:"name"`
 	Type string `json:"type"`
 	List []int  `json:"list"` // peer indices; -1 = "*"; empty = none given (creator default)
+	// Dir: the Create calls pass a Directory option that differs from the instance's own directory
+	Dir bool `json:"dir,omitempty"`
 }
 
 type CaseC14 struct {
@@ -80,6 +82,7 @@ func genC14(rt *rapid.T) CaseC14 {
 		case 4:
 			t.List = []int{1, 2}
 		}
+		t.Dir = rapid.IntRange(0, 3).Draw(rt, "dir") == 0
 		c.Tuples = append(c.Tuples, t)
 	}
 	return c
@@ -118,6 +121,13 @@ func execC14(c CaseC14) *Outcome {
 			return nil
 		}
 		return &accesscontroller.CreateAccessControllerOptions{Access: map[string][]string{"write": w.WriteList(t.List)}}
+	}
+	otherDir := "/verif-disk-elsewhere"
+	dirFor := func(t TupleC14) *string {
+		if t.Dir {
+			return &otherDir
+		}
+		return nil
 	}
 	sharedOpts := &orbitdb.CreateDBOptions{Replicate: &no}
 	type made struct {
@@ -218,7 +228,7 @@ func execC14(c CaseC14) *Outcome {
 		}
 
 		// create, re-create, open elsewhere
-		s, err := a.Create(ctx, name, t.Type, &orbitdb.CreateDBOptions{AccessController: acFor(t), Replicate: &no})
+		s, err := a.Create(ctx, name, t.Type, &orbitdb.CreateDBOptions{Directory: dirFor(t), AccessController: acFor(t), Replicate: &no})
 		if err != nil {
 			// a refusal by Create is acceptable for any name
 			o.Labels = append(o.Labels, "create-refused")
@@ -231,12 +241,12 @@ func execC14(c CaseC14) *Outcome {
 		if s.Type() != t.Type {
 			return fail("Create(%q, %s) returned a %s store", name, t.Type, s.Type())
 		}
-		if sx, err := a.Create(ctx, name, t.Type, &orbitdb.CreateDBOptions{AccessController: acFor(t), Replicate: &no}); err == nil {
+		if sx, err := a.Create(ctx, name, t.Type, &orbitdb.CreateDBOptions{Directory: dirFor(t), AccessController: acFor(t), Replicate: &no}); err == nil {
 			opened = append(opened, sx)
 			return fail("Create(%q) over an existing local database was accepted without overwrite", name)
 		}
 		yes := true
-		if s2, err := a.Create(ctx, name, t.Type, &orbitdb.CreateDBOptions{AccessController: acFor(t), Replicate: &no, Overwrite: &yes}); err != nil {
+		if s2, err := a.Create(ctx, name, t.Type, &orbitdb.CreateDBOptions{Directory: dirFor(t), AccessController: acFor(t), Replicate: &no, Overwrite: &yes}); err != nil {
 			return fail("Create(%q) with overwrite was refused: %v", name, err)
 		} else if opened = append(opened, s2); s2.Address().String() != addrA.String() {
 			return fail("Create(%q) with overwrite returned another address", name)
@@ -339,6 +349,9 @@ func execC14(c CaseC14) *Outcome {
 		}
 		if len(t.List) == 0 {
 			o.Labels = append(o.Labels, "default-write-list")
+		}
+		if t.Dir {
+			o.Labels = append(o.Labels, "created-with-directory-option")
 		}
 	}
 	_ = iface.CreateDBOptions{}
